@@ -195,11 +195,6 @@ theorem cli_sameTokens (fuel : Nat) (s₁ s₂ : String) (ht : toksOf s₁.toLis
     | ok v₂ => exact ⟨outText_unloc_eq h2, rfl, rfl, rfl⟩
 
 
-/-- an outcome without locations: the value without the locations in its code, or the error kind -/
-def outcomeUnloc : Except SErr (Option Value) → Except Err (Option Value)
-  | .ok v => .ok (v.map Value.unloc)
-  | .error (e, _) => .error e
-
 theorem outcomeUnloc_eq {x y : Except SErr (Option Value)}
     (h : mapE (Option.map Value.unloc) x = mapE (Option.map Value.unloc) y) : outcomeUnloc x = outcomeUnloc y := by
   cases x with
